@@ -110,16 +110,31 @@ def _try(spec, kind, c, pieces, ref, cls_inst):
           return {MW}
   if kind == "dup_overlap":
     for (cname, j, k, path) in P:
-      if k in ("comb", "blk") and path[-1][0] == "s" and path[-1][2] - path[-1][1] >= 2:
+      if k in ("comb", "blk", "net") and path[-1][0] == "s" and path[-1][2] - path[-1][1] >= 2:
         lo, hi = path[-1][1], path[-1][2]
-        # an overlapping but different slice of the same signal
+        # an overlapping but different slice of the same signal (the existing driver is a block OR a net;
+        # partial overlap, containment sharing an end, strict containment either way)
         key, l0, w0, t0 = piece_info(ref, cls_inst[cname], path[:-1])
-        nlo = c.randint(max(0, lo - 1), hi - 1)
-        nhi = c.randint(max(nlo + 1, lo + 1), min(w0, hi + 1))
+        form = c.choice(["any", "any", "inside", "outside"])
+        if form == "inside" and hi - lo >= 3:
+          nlo = c.randint(lo + 1, hi - 2)
+          nhi = c.randint(nlo + 1, hi - 1)
+        elif form == "outside" and lo >= 1 and hi < w0:
+          nlo = c.randint(0, lo - 1)
+          nhi = c.randint(hi + 1, w0)
+        else:
+          nlo = c.randint(max(0, lo - 3), hi - 1)
+          nhi = c.randint(max(nlo + 1, lo + 1), min(w0, hi + 3))
         if (nlo, nhi) == (lo, hi) or nhi <= nlo:
           continue
-        # must not coincide with another existing piece exactly? any overlap is a defect anyway
-        _newblk(spec["comps"][cname], "zdup", [["assign", path[:-1] + [["s", nlo, nhi]], ["const", nhi - nlo, 0]]])
+        cd = spec["comps"][cname]
+        srcs = [sg for sg in cd["signals"] if sg["kind"] == "in" and not sg["dims"] and sg["type"] == nhi - nlo]
+        if srcs and c.random() < 0.3:
+          # the second driver is a net
+          cd["items"].append({"k": "connect", "a": path[:-1] + [["s", nlo, nhi]], "b": [["a", c.choice(srcs)["name"]]],
+                              "flip": c.random() < 0.5, "op": "connect"})
+          return {MW, IC}
+        _newblk(cd, "zdup", [["assign", path[:-1] + [["s", nlo, nhi]], ["const", nhi - nlo, 0]]])
         return {MW}
   if kind == "dup_parent_field":
     for (cname, j, k, path) in P:
